@@ -193,10 +193,21 @@ fn failing_calls_n<const N: usize>() {
     };
     let _ = guarded(|| dangling().inspect(0).map(|t| t.len()));
     let _ = guarded(|| dangling().slice(0).map(|t| t.len()));
-    let _ = guarded(|| small().inspect(300).map(|t| t.len()));
     let _ = guarded(|| small().inspect(2).map(|t| t.len()));
     let _ = guarded(|| small().slice(300).map(|t| t.len()));
     let _ = guarded(|| small().slice(2).map(|t| t.len()));
+    // ids that small graphs use, asked of a graph with a single slot: each of these calls fails
+    // at its start vertex (the last inspect/v_print/slice calls of this function that can fail early)
+    let tiny = || {
+        let mut s: Sodg<N> = Sodg::empty(1);
+        s.add(0);
+        s
+    };
+    for v in [300usize, 5, 3, 2, 1] {
+        let _ = guarded(|| tiny().inspect(v).map(|t| t.len()));
+        let _ = guarded(|| tiny().v_print(v).map(|t| t.len()));
+        let _ = guarded(|| tiny().slice(v).map(|t| t.len()));
+    }
     let _ = guarded(|| small().v_print(300).map(|t| t.len()));
     let _ = guarded(|| small().v_print(3).map(|t| t.len()));
     let _ = guarded(|| small().kid(300, lab(0)));
